@@ -10,41 +10,98 @@ import Ctrmml.Proofs.CodecBreak
 namespace Ctrmml.Codec
 open Ctrmml.Mds Ctrmml.Seq Tables
 
-/-- **a stream at an arbitrary offset** -/
-theorem stream_at (nS nM : Nat) (ts : List Node) (hl : linL ts = true) :
+theorem afterL_eq_set (M : Mode) : ∀ ts : List Node, afterL M ts = M.set (afterL M ts).dm
+  | [] => rfl
+  | t :: ts => by
+    simp only [afterL]
+    have h := afterL_eq_set (t.after M) ts
+    have ht : (t.after M).rt = M.rt := by
+      cases t <;> simp only [Node.after] <;> try rfl
+      unfold Mode.after; split <;> rfl
+    rw [h]
+    simp only [Mode.set, ht]
+
+theorem afterL_of_dm {M : Mode} {ts : List Node} (h : (afterL M ts).dm = M.dm) : afterL M ts = M := by
+  rw [afterL_eq_set, h]; rfl
+
+/-- **a stream at an arbitrary offset**, entered in mode `M`; `top`: drum-mode switches allowed at
+the top level (a channel track) -/
+theorem stream_top_at (M : Mode) (top : Bool) (nS nM : Nat) (ts : List Node) (hl : linL ts = true)
+    (hm : mokL M top ts = true) :
     ∃ e', encL nS nM ts {} = .ok e' ∧
-      ∀ (pre : List Nat) (seq : List Nat) (base mj : Nat) (s : St), callsOkL seq base mj ts →
-        pre ++ e'.out ++ [mds_FINISH] <+: seq → s.pc = pre.length → s.drum = false →
-        ∃ s1, Reach seq base mj s s1 ∧ Frame s s1 ∧ s1.pc = pre.length + e'.out.length ∧
-          seq[s1.pc]? = some mds_FINISH ∧ s1.out = (expL nS nM ts).reverse ++ s.out := by
+      ∀ (pre : List Nat) (seq : List Nat) (base mj : Nat) (s : St) {b : Nat} {r : List Nat}, M.Sound seq base mj →
+        callsOkL M seq base mj ts → b ≥ 0x80 →
+        pre ++ e'.out ++ b :: r <+: seq → s.pc = pre.length → s.drum = M.dm →
+        ∃ s1, Reach seq base mj s s1 ∧ FrameX s s1 ∧ s1.drum = (afterL M ts).dm ∧ s1.pc = pre.length + e'.out.length ∧
+          s1.out = (expL M nS nM ts).reverse ++ s.out := by
   obtain ⟨e', he', _, _, _⟩ := encL_total nS nM ts hl {}
   refine ⟨e', he', ?_⟩
-  intro pre seq base mj s hc hp hpc hd
+  intro pre seq base mj s b r hS hc hb hp hpc hd
   obtain ⟨e0, he0⟩ : ∃ e0 : Enc, e0 = { out := pre } := ⟨_, rfl⟩
   have hsim : SimE {} e0 := by rw [he0]; exact ⟨rfl, rfl, rfl, fun hn => by simp [noteish, mds_REST, mds_TIE] at hn⟩
   obtain ⟨e0', h0', par⟩ := encL_par nS nM ts hl {} e0 e' hsim he'
   obtain ⟨B, hB1, hB2⟩ := par.app
   have ho : e0'.out = pre ++ e'.out := by rw [hB2, hB1, he0]; simp
-  obtain ⟨x, hx, sem⟩ := encL_sim nS nM ts hl e0
+  obtain ⟨x, hx, sem⟩ := encL_sim M top nS nM ts hl hm e0
   rw [h0'] at hx; injection hx with hx; subst hx
-  have g0 : Good e0 s s.out := by
+  have g0 : Good M e0 s s.out := by
     rw [he0]
     exact ⟨fun h => absurd rfl h, fun h => absurd rfl h, hd, .inl ⟨by simp [needLenB, noteish, mds_REST, mds_TIE], hpc, rfl⟩⟩
-  have hp' : e0'.out ++ [mds_FINISH] <+: seq := by rw [ho]; exact hp
-  obtain ⟨s1, r1, f1, g1⟩ := sem seq base mj s s.out hc ((List.prefix_append _ _).trans hp') g0
-  obtain ⟨s2, r2, f2, i2⟩ := resolve (base := base) (mj := mj) g1 (b := mds_FINISH) (by decide) hp'
-  refine ⟨s2, r1.trans r2, f1.trans f2, ?_, ?_, i2.out⟩
-  · rw [i2.pc, ho]; simp
-  · rw [i2.pc]; exact rd_at hp'
+  have hp' : e0'.out ++ b :: r <+: seq := by rw [ho]; exact hp
+  obtain ⟨s1, r1, f1, g1⟩ := sem seq base mj s s.out hS hc ((List.prefix_append _ _).trans hp') g0
+  obtain ⟨s2, r2, f2, i2⟩ := resolve (base := base) (mj := mj) (afterL_sound hS ts) g1 hb hp'
+  refine ⟨s2, r1.trans r2, f1.trans f2.x, i2.drum, ?_, i2.out⟩
+  rw [i2.pc, ho]; simp
+
+/-- the same for a stream that does not change the mode (subroutines, drum routines) -/
+theorem stream_at (M : Mode) (nS nM : Nat) (ts : List Node) (hl : linL ts = true) (hm : mokL M false ts = true) :
+    ∃ e', encL nS nM ts {} = .ok e' ∧
+      ∀ (pre : List Nat) (seq : List Nat) (base mj : Nat) (s : St) {b : Nat} {r : List Nat}, M.Sound seq base mj →
+        callsOkL M seq base mj ts → b ≥ 0x80 →
+        pre ++ e'.out ++ b :: r <+: seq → s.pc = pre.length → s.drum = M.dm →
+        ∃ s1, Reach seq base mj s s1 ∧ Frame s s1 ∧ s1.pc = pre.length + e'.out.length ∧
+          s1.out = (expL M nS nM ts).reverse ++ s.out := by
+  obtain ⟨e', he', h⟩ := stream_top_at M false nS nM ts hl hm
+  refine ⟨e', he', ?_⟩
+  intro pre seq base mj s b r hS hc hb hp hpc hd
+  obtain ⟨s1, r1, f1, hd1, hpc1, ho⟩ := h pre seq base mj s hS hc hb hp hpc hd
+  rw [afterL_of_mok hm] at hd1
+  exact ⟨s1, r1, f1.frame (hd1.trans hd.symm), hpc1, ho⟩
 
 /-- (1) gives (2)'s hypothesis for a compiled subroutine placed at offset `pre.length` -/
-theorem stream_at_subPlays (nS nM : Nat) (ts : List Node) (hl : linL ts = true) :
+theorem stream_at_subPlays (M : Mode) (nS nM : Nat) (ts : List Node) (hl : linL ts = true)
+    (hm : mokL M false ts = true) :
     ∃ e', encL nS nM ts {} = .ok e' ∧
-      ∀ (pre seq : List Nat) (base mj : Nat), callsOkL seq base mj ts → pre ++ e'.out ++ [mds_FINISH] <+: seq →
-        SubPlays seq base mj pre.length (expL nS nM ts) := by
-  obtain ⟨e', he', h⟩ := stream_at nS nM ts hl
+      ∀ (pre seq : List Nat) (base mj : Nat), M.Sound seq base mj → callsOkL M seq base mj ts →
+        pre ++ e'.out ++ [mds_FINISH] <+: seq → SubPlays seq base mj M.dm pre.length (expL M nS nM ts) := by
+  obtain ⟨e', he', h⟩ := stream_at M nS nM ts hl hm
+  refine ⟨e', he', fun pre seq base mj hS hc hp s0 hpc hd => ?_⟩
+  obtain ⟨s1, r1, f1, hpc1, ho⟩ := h pre seq base mj s0 hS hc (b := mds_FINISH) (by decide) hp hpc hd
+  refine ⟨s1, r1, f1, ?_, ho⟩
+  rw [hpc1]
+  have : (pre ++ e'.out) ++ mds_FINISH :: [] <+: seq := hp
+  simpa using rd_at this
+
+/-- the mode of a drum routine's own commands: drum flag on, no routine known (a routine contains
+no note before its first note) -/
+def Mode.drum0 : Mode := ⟨true, fun _ => none⟩
+
+theorem Mode.drum0_sound (seq : List Nat) (base mj : Nat) : Mode.drum0.Sound seq base mj := by
+  intro j C k h; simp [Mode.drum0] at h
+
+/-- **a drum routine at an arbitrary offset**: the commands before its first note, then `DMFINISH k` -/
+theorem routine_at (nS nM : Nat) (ts : List Node) (hl : linL ts = true) (hm : mokL Mode.drum0 false ts = true) (k : Nat) :
+    ∃ e', encL nS nM ts {} = .ok e' ∧
+      ∀ (pre seq : List Nat) (base mj : Nat), callsOkL Mode.drum0 seq base mj ts →
+        pre ++ e'.out ++ [mds_DMFINISH, k] <+: seq →
+        DrumPlays seq base mj pre.length (expL Mode.drum0 nS nM ts) k := by
+  obtain ⟨e', he', h⟩ := stream_at Mode.drum0 nS nM ts hl hm
   refine ⟨e', he', fun pre seq base mj hc hp s0 hpc hd => ?_⟩
-  obtain ⟨s1, r1, f1, _, hfin, ho⟩ := h pre seq base mj s0 hc hp hpc hd
-  exact ⟨s1, r1, f1, hfin, ho⟩
+  obtain ⟨s1, r1, f1, hpc1, ho⟩ := h pre seq base mj s0 (Mode.drum0_sound _ _ _) hc (b := mds_DMFINISH) (by decide)
+    hp hpc hd
+  have hp' : (pre ++ e'.out) ++ mds_DMFINISH :: k :: [] <+: seq := hp
+  refine ⟨s1, r1, f1, ?_, ?_, ho⟩
+  · rw [hpc1]; simpa using rd_at hp'
+  · rw [hpc1]; simpa using rd_at1 hp'
 
 end Ctrmml.Codec
